@@ -3,29 +3,27 @@
     of the handler's blocking read calls (Model/Lifecycle.v). *)
 From Coq Require Import String Ascii List Bool ZArith NArith Arith.
 From Raven Require Import Base.GoStr Model.Lifecycle Model.LifecycleSrv Spec.Lifecycle
-  Proof.Lifecycle Proof.LifecycleSrv.
+  Model.LifecycleWrite Proof.Lifecycle Proof.LifecycleSrv Proof.LifecycleWrite.
 Import ListNotations.
 
-(** (a) IMAP, client gone. From EVERY state (reachable by a command prefix or
-    not; a final unterminated line is just one more [Data] event of the prefix)
-    outside the finding class, once every read fails with EOF or another
-    error, the handler has returned after at most 2 further read calls. *)
+(** (a) IMAP, client gone. From EVERY state — IDLE included since fixes C20-1
+    and C20-2 — (reachable by a command prefix or not; a final unterminated
+    line is just one more [Data] event of the prefix), once every read fails
+    with EOF or another error, the handler has returned after at most 2
+    further read calls. *)
 Theorem c20_imap_gone_terminates : forall (s : istate) (es : list event),
-  i_classify s true = None -> all_gone es = true -> imap_steps_bound <= length es ->
-  i_done (fst (irun s es)) = true.
+  all_gone es = true -> imap_steps_bound <= length es -> i_done (fst (irun s es)) = true.
 Proof. exact imap_gone_terminates. Qed.
 Print Assumptions c20_imap_gone_terminates.
 
-(** (b) IMAP, client silent: same with read deadlines running out, and the
-    time this takes is at most 5 min + 30 min. *)
+(** (b) IMAP, client silent: same with read deadlines (in IDLE: the
+    inactivity limit) running out, and the time this takes is at most 5 min + 30 min. *)
 Theorem c20_imap_silent_terminates : forall (s : istate) (es : list event),
-  i_classify s false = None -> all_silent es = true -> imap_steps_bound <= length es ->
-  i_done (fst (irun s es)) = true.
+  all_silent es = true -> imap_steps_bound <= length es -> i_done (fst (irun s es)) = true.
 Proof. exact imap_silent_terminates. Qed.
 Print Assumptions c20_imap_silent_terminates.
 
 Theorem c20_imap_silence_time : forall s : istate,
-  i_classify s false = None ->
   exists t, i_silence_ms 3 s = Some t /\ (t <= imap_silence_bound)%N.
 Proof. exact imap_silence_time. Qed.
 Print Assumptions c20_imap_silence_time.
@@ -36,29 +34,46 @@ Theorem c20_deadlines : forall m : imode,
 Proof. exact imap_deadlines. Qed.
 Print Assumptions c20_deadlines.
 
-(** one failed read leads to the end, back to the command loop, or (IDLE) changes nothing *)
+(** one failed read leads to the end or back to the command loop *)
 Theorem c20_imap_failed_read_step : forall (s : istate) (e : event),
   is_nodata e = true ->
-  let s' := fst (istep s e) in
-  i_mode s' = IDone \/ i_mode s' = ICmd \/ (i_mode s = IIdle /\ s' = s).
+  let s' := fst (istep s e) in i_mode s' = IDone \/ i_mode s' = ICmd.
 Proof. exact imap_nodata_step. Qed.
 Print Assumptions c20_imap_failed_read_step.
 
-(** raven violates (a) inside IDLE: a reachable state from which NO sequence
-    of failed reads, however long, ends the handler (class idle_ignores_read_errors) *)
-Theorem c20_refuted_idle_ignores_read_errors :
-  exists s, i_reachable s /\ i_classify s true = Some IdleIgnoresReadErrors /\
-            forall es, all_gone es = true -> i_done (fst (irun s es)) = false.
-Proof. exact imap_idle_never_ends. Qed.
-Print Assumptions c20_refuted_idle_ignores_read_errors.
+(** (w) the client stops READING. IMAP: the first reply that cannot be written
+    costs the 5 min write deadline and closes the connection; from every state
+    the handler has returned after 2 more read calls, which fail at once. *)
+Theorem c20_imap_stalled_terminates : forall (s : istate) (e : event) (es : list (event * wout)),
+  i_done s = false -> writes (real_replies (snd (istep s e))) = true -> 2 <= length es ->
+  i_done (fst (irun_w false s ((e, WBlocked) :: es))) = true /\
+  snd (irun_w false s ((e, WBlocked) :: es)) = (read_cost (ideadline (i_mode s)) e + 300000)%N.
+Proof. exact imap_stalled_terminates. Qed.
+Print Assumptions c20_imap_stalled_terminates.
 
-(** ... and (b): IDLE has no deadline that ends it (class idle_no_deadline) *)
-Theorem c20_refuted_idle_no_deadline :
-  exists s, i_reachable s /\ i_classify s false = Some IdleNoDeadline /\
-            (forall es, all_silent es = true -> i_done (fst (irun s es)) = false) /\
-            (forall fuel, i_silence_ms fuel s = None).
-Proof. exact imap_idle_no_deadline. Qed.
-Print Assumptions c20_refuted_idle_no_deadline.
+(** LMTP: whatever the client has pipelined ([ds], any length, any content),
+    with every write blocked and then silence, from every state and for every
+    configuration the session ends, having been blocked for at most 3 x timeout
+    (one write, two reads; 2 x once the writer's error is sticky). *)
+Theorem c20_lmtp_stalled_terminates : forall (cf : lconf) (ds : list event) (werr : bool) (s : lstate),
+  forallb is_data ds = true ->
+  let r := lrun_w cf werr s (with_w WBlocked (ds ++ [Timeout; Timeout])) in
+  l_done (fst r) = true /\ (snd r <= stall_bound cf werr)%N.
+Proof. exact lmtp_stalled_terminates. Qed.
+Print Assumptions c20_lmtp_stalled_terminates.
+
+(** SASL: the first unwritable reply costs 30 s and closes the connection; the next read ends the handler *)
+Theorem c20_sasl_stalled_terminates : forall (sh : bool) (e : event) (es : list (event * wout)),
+  snd (sstep sh SCmd e) <> 0 -> 1 <= length es ->
+  s_done (fst (srun_w sh false SCmd ((e, WBlocked) :: es))) = true /\
+  snd (srun_w sh false SCmd ((e, WBlocked) :: es)) = (read_cost (sdeadline SCmd) e + 30000)%N.
+Proof. exact sasl_stalled_terminates. Qed.
+Print Assumptions c20_sasl_stalled_terminates.
+
+(** every service writes its replies under a deadline *)
+Theorem c20_write_deadlines : forall (k : service) (cf : lconf), write_deadline k cf <> None.
+Proof. exact write_deadlines_exist. Qed.
+Print Assumptions c20_write_deadlines.
 
 (** LMTP: from every state (command loop, mid-DATA with any amount read), for
     every configuration, 2 failed reads end the session; silence costs at
@@ -74,8 +89,8 @@ Proof. exact lmtp_silence_time. Qed.
 Print Assumptions c20_lmtp_silence_time.
 
 (** SASL: one failed read ends the connection handler; 30 s deadline on every read *)
-Theorem c20_sasl_terminates : forall (m : smode) (es : list event),
-  no_data es = true -> sasl_steps_bound <= length es -> s_done (fst (srun m es)) = true.
+Theorem c20_sasl_terminates : forall (sh : bool) (m : smode) (es : list event),
+  no_data es = true -> sasl_steps_bound <= length es -> s_done (fst (srun sh m es)) = true.
 Proof. exact sasl_nodata_terminates. Qed.
 Print Assumptions c20_sasl_terminates.
 
@@ -128,27 +143,57 @@ Theorem c20_sasl_first_shutdown : forall s : srv,
 Proof. exact sasl_first_shutdown. Qed.
 Print Assumptions c20_sasl_first_shutdown.
 
-(** ... and not before: while a client keeps its connection busy, Shutdown
-    does not return (class sasl_shutdown_waits_for_clients) *)
-Theorem c20_refuted_sasl_shutdown_waits_for_clients : forall (h : list sev) (n : nat),
+(** ... and not before (the wait is for the sessions, for nothing else) *)
+Theorem c20_sasl_shutdown_waits_for_sessions_only : forall (h : list sev) (n : nat),
   0 < n -> existsb is_end h = false ->
   ~ In OShutReturned (snd (srv_run SvcSASL (blocked n) h)) /\
   fst (srv_run SvcSASL (blocked n) h) = blocked n.
-Proof. exact sasl_blocked_while_sessions_live. Qed.
-Print Assumptions c20_refuted_sasl_shutdown_waits_for_clients.
+Proof. exact sasl_waits_for_sessions. Qed.
+Print Assumptions c20_sasl_shutdown_waits_for_sessions_only.
 
-(** a second lmtp.Shutdown closes a closed channel (class lmtp_double_shutdown) *)
-Theorem c20_refuted_lmtp_double_shutdown :
-  snd (srv_run SvcLMTP srv_init [Shutdown; Shutdown]) = [OShutReturned; OShutPanic].
-Proof. exact lmtp_double_shutdown_panics. Qed.
-Print Assumptions c20_refuted_lmtp_double_shutdown.
+(** ... and the sessions do end (fix C20-4): once Shutdown has begun, every
+    read outcome ends a connection — a failed read, or a request that is
+    answered (it is the last one) — except a line of a single field, which is
+    ignored WITHOUT re-arming the 30 s deadline. A busy client cannot keep
+    Shutdown waiting. *)
+Theorem c20_sasl_shutdown_ends_connection : forall (m : smode) (e : event),
+  s_done (fst (sstep true m e)) = true \/
+  (exists l o, e = Data l o /\ snd (sstep true m e) = 0 /\ fst (sstep true m e) = m).
+Proof. exact sasl_shutdown_ends_connection. Qed.
+Print Assumptions c20_sasl_shutdown_ends_connection.
+
+(** a second lmtp.Shutdown returns and changes nothing (fix C20-3); no history makes a service panic *)
+Theorem c20_lmtp_shutdown_idempotent : forall s : srv,
+  panicked s = false -> chan_closed s = true -> sstep_srv SvcLMTP s Shutdown = (s, [OShutReturned]).
+Proof. exact lmtp_shutdown_idempotent. Qed.
+Print Assumptions c20_lmtp_shutdown_idempotent.
+
+Theorem c20_shutdown_never_panics : forall (k : svc) (h : list sev) (s : srv),
+  panicked s = false -> panicked (fst (srv_run k s h)) = false.
+Proof. exact never_panics. Qed.
+Print Assumptions c20_shutdown_never_panics.
 
 (** non-vacuity *)
-Example c20_partial_idle_line_runs_forever :
+(** regression witnesses of the repaired classes: the traces on which raven
+    used to run for ever now end; [old_idle_poll] is the old loop *)
+Example c20_idle_traces_end :
+  i_done (fst (irun (i_init true) (idle_prefix ++ [Eof; Eof]))) = true /\
+  i_done (fst (irun (i_init true) (idle_prefix ++ [Timeout; ReadErr]))) = true /\
+  i_silence_ms 3 (fst (irun (i_init true) idle_prefix)) = Some 1800000%N.
+Proof. exact imap_idle_gone_ends. Qed.
+
+Example c20_old_idle_never_ended : forall es, no_data es = true -> fold_left old_idle_poll es true = true.
+Proof. exact old_idle_never_ended. Qed.
+
+Example c20_double_shutdown_returns :
+  snd (srv_run SvcLMTP srv_init [Shutdown; Shutdown]) = [OShutReturned; OShutReturned].
+Proof. exact lmtp_double_shutdown_returns. Qed.
+
+Example c20_stalled_idle_ends :
   let s := fst (irun (i_init true) [Data (S_ "a LOGIN u p") true; Data (S_ "b SELECT INBOX") true]) in
-  i_classify s true = None /\
-  forall es, all_gone es = true -> i_done (fst (irun s (Data (S_ "c IDLE") true :: es))) = false.
-Proof. exact imap_partial_line_idle. Qed.
+  irun_w false s (with_w WBlocked [Data (S_ "c IDLE") true; Timeout; Timeout])
+  = (mk_i IDone true true true, 300000%N).
+Proof. vm_compute. reflexivity. Qed.
 
 Example c20_states_example :
   map (fun es => i_mode (fst (irun (i_init true) es)))
